@@ -95,6 +95,18 @@ def hx(b: bytes) -> str:
     return b.hex() if b else "-"
 
 
+_CELL_HDR_END = None
+
+
+def cell_header_end() -> int:
+    """length of prefix + msg id + cell header, taken from the ENCODER (CellPayload.to_bin), not from from_bin"""
+    global _CELL_HDR_END
+    if _CELL_HDR_END is None:
+        from ipv8.messaging.anonymization.payload import CellPayload
+        _CELL_HDR_END = len(CellPayload(0, b"").to_bin(b"\x00" * 22))
+    return _CELL_HDR_END
+
+
 class Hang(BaseException):
     pass
 
@@ -604,6 +616,13 @@ class World:
         self.last_called = 0
         self._wrap_registry()
         self._wrap_network()
+        self.tx: list[int] = []
+        real_send = self.ep.send
+
+        def send(address, packet, *a, **kw):
+            self.tx.append(len(packet))
+            return real_send(address, packet, *a, **kw)
+        self.ep.send = send
 
     # ---- ids and registry mirroring
     def lid(self, obj) -> int:
@@ -894,6 +913,7 @@ class World:
         self.sync_crypto()
         dec = self.dec_oracle(data)
         self.events = []
+        self.tx = []
         self.current = data
         exn = "none"
         expected = self.expected_recipients(data) if self.ep.is_open() else []
@@ -936,6 +956,16 @@ class World:
                     fail(ctx, "Endpoint.notify_listeners:listener-skipped",
                                     f"listener {type(self.objs[l]).__name__} registered for this datagram was not called "
                                     f"[{label}] in world {self.name}", self.replay(data))
+        # a cell that ends inside its header (format written by CellPayload.to_bin: circuit id + two flag bytes) is a
+        # truncated message: the node must neither enter a handler nor emit anything because of it
+        for ce in self.cryptos.values():
+            if data.startswith(bytes(ce.prefix)) and data[22:23] == b"\x00" and len(data) < cell_header_end():
+                ctx.count("recv:truncated-cell-header")
+                if self.tx or any(e[0] == "q" for e in self.events):      # (`p…:0` is on_cell's own, failing, decode attempt)
+                    fail(ctx, "CellPayload.from_bin:truncated-cell-acted-upon",
+                         f"a {len(data)}-byte cell (header needs {cell_header_end()} bytes) made the node "
+                         f"{'send ' + str(len(self.tx)) + ' packet(s) of ' + str(self.tx[:3]) + ' bytes' if self.tx else 'enter a circuit handler'}"
+                         f" in world {self.name}", self.replay(data))
         ctx.count(f"recv:gen:{label}")
         ctx.count(f"recv:len:{'0-21' if len(data) < 22 else '22' if len(data) == 22 else '23-29' if len(data) < 30 else '30-199' if len(data) < 200 else '200+'}")
         ctx.count(f"recv:handlers_entered:{min(sum(1 for e in self.events if e[0] in 'pq'), 3)}")
@@ -1518,6 +1548,162 @@ async def run_udp(ctx: Ctx, rng, Probe, use_model: bool):
         await w.close()
 
 
+# =================================================================================================== B2. other transports
+def exit_inputs(rng, prefix: bytes, quick: bool):
+    """byte strings for the exit sockets: every length around each DataChecker guard x first-word / header classes"""
+    words = [0, 1, 3, 4, 5, 0x417, 0xFFFFFFFF]
+    for n in range(0, 41):
+        yield "len-sweep", rbytes(rng, n)
+        for w in (words if not quick else rng.sample(words, 3)):
+            d = w.to_bytes(4, "big") + rbytes(rng, max(0, n - 4))
+            yield "tracker-word@0", d[:n] if n >= 4 else d[:4]
+            if n >= 8:
+                d2 = rbytes(rng, 8)
+                d2 = bytes([d2[0] | 0x80]) + d2[1:] + w.to_bytes(4, "big") + rbytes(rng, n)
+                yield "tracker-word@8", d2[:n]
+    for n in (1, 2, 19, 20, 21, 30):
+        for b1 in (0x01, 0x11, 0x21, 0x41, 0x51, 0x02, 0x40):
+            for b2 in (0, 3, 4):
+                yield "utp-header", (bytes([b1, b2]) + rbytes(rng, 40))[:n]
+    for body in (b"", b"1:a1:b", rbytes(rng, 9)):
+        yield "bencoded", b"d" + body + b"e"
+        yield "bencoded-open", b"d" + body
+    yield "bencoded", b"de"
+    yield "bencoded-open", b"d"
+    for n in (21, 22, 23, 24, 60):
+        for v in (1, 2, 3):
+            yield "ipv8-like", (b"\x00" + bytes([v]) + rbytes(rng, 70))[:n]
+        yield "own-prefix", (prefix + rbytes(rng, 70))[:n]
+    for _ in range(30 if quick else 400):
+        yield "random", rbytes(rng, rng.choice([0, 3, 7, 8, 9, 11, 12, 13, 19, 20, 23, 100, 1400]))
+
+
+async def run_transports(ctx: Ctx, use_model: bool, quick: bool):
+    """the node's other network-facing callbacks: exit sockets (TunnelProtocol -> TunnelExitSocket.datagram_received_*),
+    the LAN broadcast bootstrap endpoint; and the hand-written cell header decoder on its own"""
+    from ipv8.bootstrapping.udpbroadcast.bootstrapper import HDR_ANNOUNCE, BroadcastBootstrapEndpoint
+    from ipv8.messaging.anonymization.community import TunnelCommunity
+    from ipv8.messaging.anonymization.exit_socket import DataChecker, TunnelExitSocket, TunnelProtocol
+    from ipv8.messaging.anonymization.payload import CellPayload
+    from ipv8.messaging.anonymization.tunnel import PEER_FLAG_EXIT_BT, PEER_FLAG_EXIT_IPV8, PEER_FLAG_RELAY, Hop
+    from ipv8.peer import Peer
+    from ipv8.test.mocking.endpoint import AutoMockEndpoint, MockEndpoint, internet
+    from ipv8_rust_tunnels import generate_session_keys
+    AutoMockEndpoint.SEND_INET_EXCEPTION_TO_LOOP = False
+    rng = ctx.rng
+    for a in (SRC_ADDR, ("5.6.7.8", 9), ("10.0.0.9", 7)):
+        if a not in internet:
+            MockEndpoint(a, a).open()
+    lines, expect = [], []
+
+    # ---- exit sockets
+    w = World(ctx, "exit-socket")
+    tc = w.add_overlay(TunnelCommunity)
+    P = bytes(tc.get_prefix())
+    peer = Peer(key_pool()[1].pub(), ("5.6.7.8", 9))
+    es = TunnelExitSocket(4004, Hop(peer, generate_session_keys(b"x" * 64)), tc)
+    tc.exit_sockets[4004] = es
+    outcome: list = []
+    real_tunnel = es.tunnel_data
+
+    def tunnel_data(source, data):
+        outcome.append("tunneled")
+        return real_tunnel(source, data)
+    es.tunnel_data = tunnel_data
+    proto4 = TunnelProtocol(es.datagram_received_ipv4, ("0.0.0.0", 0))       # what asyncio calls
+    proto6 = TunnelProtocol(es.datagram_received_ipv6, ("::", 0))
+    for bt, v8 in ((True, True), (True, False), (False, True), (False, False)):
+        tc.settings.peer_flags = {PEER_FLAG_RELAY} | ({PEER_FLAG_EXIT_BT} if bt else set()) | ({PEER_FLAG_EXIT_IPV8} if v8 else set())
+        for label, d in exit_inputs(rng, P, quick):
+            route = rng.choice(["v4", "v4", "v6", "v6-mapped"])
+            replay = {"kind": "exit", "data": d.hex(), "exit_bt": bt, "exit_ipv8": v8, "route": route}
+            ctx.count(f"exit:gen:{label}")
+            ctx.count(f"exit:len:{'0-7' if len(d) < 8 else '8-11' if len(d) < 12 else '12-19' if len(d) < 20 else '20-22' if len(d) < 23 else '23+'}")
+            ctx.case(("exit", bt, v8, route, d), label != "random")
+            del outcome[:]
+            try:
+                if route == "v4":
+                    proto4.datagram_received(d, ("9.9.9.9", 123))
+                elif route == "v6":
+                    proto6.datagram_received(d, ("2001:db8::7", 123, 0, 0))
+                else:
+                    proto6.datagram_received(d, ("::ffff:9.9.9.9", 123, 0, 0))
+            except Exception as e:
+                fail(ctx, f"{site_of(e)}:{type(e).__name__}",
+                     f"{type(e).__name__} ({str(e)[:100]}) reached the exit socket's transport callback for a {len(d)}-byte "
+                     f"datagram [{label}] (exit BT={bt}, IPv8={v8}, {route})", replay)
+                continue
+            chk = []
+            for name, fn in (("utp", DataChecker.could_be_utp), ("trk", DataChecker.could_be_udp_tracker),
+                             ("dht", DataChecker.could_be_dht), ("v8", DataChecker.could_be_ipv8)):
+                try:
+                    chk.append(f"{name}={'true' if fn(d) else 'false'}")
+                except Exception:
+                    chk.append(f"{name}=exn")
+            got = " ".join(chk) + " " + ("tunneled" if outcome else "dropped")
+            ctx.count(f"exit:outcome:{'tunneled' if outcome else 'dropped'}")
+            if route != "v6-mapped":
+                lines.append(f"exit {1 if bt else 0} {1 if v8 else 0} {hx(P)} {hx(d)}")
+                expect.append((got, replay))
+            elif outcome:
+                fail(ctx, "TunnelExitSocket.datagram_received_ipv6:mapped-ipv4-processed",
+                     "a datagram from an IPv4-mapped IPv6 source was tunnelled (that socket must ignore them)", replay)
+    await w.close()
+
+    # ---- the cell header decoder by itself
+    for n in list(range(0, 45)) * (1 if quick else 8):
+        pkt = (P + b"\x00" + rbytes(rng, 60))[:n] if rng.random() < 0.8 else rbytes(rng, n)
+        if n > 28 and rng.random() < 0.5:
+            pkt = pkt[:27] + bytes([rng.choice([0, 1, 2, 255]), rng.choice([0, 1, 2, 255])]) + pkt[29:]
+        replay = {"kind": "cell_header", "packet": pkt.hex()}
+        ctx.count(f"cellhdr:len:{'<23' if n < 23 else '23-28' if n < 29 else '29+'}")
+        ctx.case(("cellhdr", pkt), True)
+        try:
+            c = CellPayload.from_bin(pkt)
+            got = f"ok {c.circuit_id} {'true' if c.plaintext else 'false'} {'true' if c.relay_early else 'false'} {hx(bytes(c.message))}"
+            # the property on the implementation: accepted => the whole header written by to_bin is present
+            if len(pkt) < cell_header_end():
+                fail(ctx, "CellPayload.from_bin:truncated-header-accepted",
+                     f"a {len(pkt)}-byte packet was decoded to a cell (circuit {c.circuit_id}, {len(c.message)}-byte message) although "
+                     f"the cell header ends at byte {cell_header_end()}", replay)
+            elif bytes(c.message) != pkt[cell_header_end():] or c.circuit_id != int.from_bytes(pkt[23:27], "big"):
+                fail(ctx, "CellPayload.from_bin:fields-differ-from-bytes",
+                     "decoded circuit id / message are not the bytes of the packet", replay)
+        except Exception as e:
+            got = "exn"
+            ctx.count(f"cellhdr:err:{type(e).__name__}")
+        lines.append(f"cellhdr {hx(pkt)}")
+        expect.append((got, replay))
+
+    # ---- LAN broadcast bootstrap endpoint (oracle only: it hands matching datagrams to the overlay's on_packet)
+    w = World(ctx, "broadcast-bootstrap")
+    Probe = make_probe_community()
+    o = w.add_overlay(Probe)
+    bep = BroadcastBootstrapEndpoint(o)
+    PP = bytes(o.get_prefix())
+    cases = [HDR_ANNOUNCE + PP, HDR_ANNOUNCE + PP[:10], HDR_ANNOUNCE, HDR_ANNOUNCE[:3], HDR_ANNOUNCE + PP + b"x", b""] + \
+            [PP[:k] for k in range(0, 23, 3)] + [PP + bytes([m]) + rbytes(rng, k) for m in (1, 2, 40, 60, 200, 246) for k in (0, 5)] + \
+            [rbytes(rng, k) for k in (1, 7, 30)]
+    for d in cases:
+        for addr in (SRC_ADDR, ("10.0.0.9", 7, 0, 0)):
+            ctx.count("broadcast:datagram_received")
+            ctx.case(("bcast", addr, d), True)
+            w.current = d
+            try:
+                bep.datagram_received(d, addr[:2] if len(addr) > 2 else addr)
+            except Exception as e:
+                fail(ctx, f"{site_of(e)}:{type(e).__name__}",
+                     f"{type(e).__name__} ({str(e)[:100]}) reached the broadcast bootstrap endpoint's transport callback",
+                     {"kind": "broadcast", "data": d.hex()})
+    await w.close()
+
+    if use_model and lines:
+        for ln, model, (impl, replay) in zip(lines, ctx.driver().batch(lines), expect):
+            m = "exn" if (ln.startswith("cellhdr") and model.startswith("exn=")) else model
+            if m != impl:
+                ctx.disagree(f"{ln.split(' ')[0]}: model `{model[:160]}` != implementation `{impl[:160]}`", dict(replay, line=ln[:400]))
+
+
 # =================================================================================================== C. snapshot
 def run_snapshot(ctx: Ctx, n: int, use_model: bool):
     from ipv8.peerdiscovery.network import Network
@@ -1579,7 +1765,7 @@ def run_snapshot(ctx: Ctx, n: int, use_model: bool):
 
 # =================================================================================================== entry points
 def _run_all(ctx: Ctx, use_model: bool, quick: bool, decode_rounds: int, snaps: int,
-             sections=("decode", "snapshot", "receive")):
+             sections=("decode", "snapshot", "receive", "transports")):
     lvl = logging.root.manager.disable
     logging.disable(logging.CRITICAL)
     import random as _random
@@ -1596,6 +1782,11 @@ def _run_all(ctx: Ctx, use_model: bool, quick: bool, decode_rounds: int, snaps: 
             reset_keys(ctx.seed)
             _random.seed(f"{ctx.seed}:global")      # the mock endpoints' addresses and the overlays' circuit ids use `random`
             asyncio.run(run_receive(ctx, use_model, quick))
+        if "transports" in sections:
+            ctx.rng = _random.Random(f"{ctx.seed}:transports")
+            reset_keys(ctx.seed)
+            _random.seed(f"{ctx.seed}:global2")
+            asyncio.run(run_transports(ctx, use_model, quick))
     finally:
         logging.disable(lvl)
 
@@ -1640,6 +1831,16 @@ def replay(ctx: Ctx, rec: dict):
             print(f"replay: load_snapshot raised {type(e).__name__}")
             fail(ctx, "replay", "replayed snapshot still fails", r)
         ctx.case(("replay",), True)
+    elif kind in ("exit", "cell_header", "broadcast"):
+        sig = rec.get("signature", "")
+        ctx.seed = int(rec.get("seed", ctx.seed))
+        before = len(ctx.failures)
+        _run_all(ctx, False, rec.get("tier", "quick") != "thorough", 0, 0, sections=("transports",))
+        again = [f for f in ctx.failures[before:] if f["signature"] == sig]
+        print(f"replay: transports section re-run with seed {ctx.seed}; signature {sig!r}: "
+              f"{'property FAILS again: ' + again[0]['what'][:200] if again else 'does not fail'}")
+        if not again:
+            del ctx.failures[before:]
     elif kind in ("receive", "udp", "loop"):
         # worlds are history dependent (registry calls, re-entrant behaviours, Network state, handler side effects), so
         # the recorded run is reproduced exactly: same seed, same tier, receive section only (every choice and every key
